@@ -104,10 +104,12 @@ impl Report {
                             0 | 1 => crate::wire::l1(x),
                             2 => {
                                 // value | absent-class error (Binding / Attribute) | other error, call log verbatim
-                                match x.split_once(' ') {
-                                    Some((head, rest)) => format!("{} {}", crate::wire::l2_absent(head), rest),
-                                    None => crate::wire::l2_absent(x),
-                                }
+                                // (failures stored inside a list / map value: any kind)
+                                x.split(' ')
+                                    .enumerate()
+                                    .map(|(i, t)| if i == 0 { crate::wire::l2_absent(t) } else if t.starts_with("e:") { "e:*".to_string() } else { t.to_string() })
+                                    .collect::<Vec<_>>()
+                                    .join(" ")
                             }
                             3 => {
                                 // L1 on the result token, call log verbatim
